@@ -29,6 +29,7 @@ type Config struct {
 	Known        map[string]bool // ids of known findings that harnesses may tag
 	Replay       map[string]uint64
 	Params       map[string]int64
+	FallbackMs   int // one-shot solver budget for queries the incremental solver cannot decide
 	Deadline     time.Time
 }
 
@@ -85,6 +86,7 @@ type Result struct {
 	MaxTerms    int
 	WallS       float64
 	UnknownFeas int
+	Fallbacks   int // queries decided by the one-shot fallback solvers
 	FloatApprox int
 }
 
@@ -131,6 +133,13 @@ func Explore(prog *ssa.Program, entry *ssa.Function, cfg *Config) *Result {
 				return
 			}
 			defer solver.Close()
+			solver.FallbackMs = cfg.FallbackMs
+			if d := os.Getenv("GOSYM_DUMP"); d != "" {
+				if df, err := os.Create(fmt.Sprintf("%s.%d.smt2", d, time.Now().UnixNano())); err == nil {
+					solver.Dump = df
+					defer df.Close()
+				}
+			}
 			for {
 				item, ok := ex.next()
 				if !ok {
@@ -151,6 +160,7 @@ func Explore(prog *ssa.Program, entry *ssa.Function, cfg *Config) *Result {
 				ex.res.Incomplete = append(ex.res.Incomplete, "solver error: "+solver.LastErr)
 			}
 			ex.res.SolverNs += solver.WallNs
+			ex.res.Fallbacks += solver.Fallbacks
 			ex.mu.Unlock()
 		}()
 	}
